@@ -17,7 +17,8 @@ from .common import const_value, early_exits, holds_at, is_path, iter_base, loc,
 EXPLANATION = (
     "static analysis of state carried between processing steps: the set of attributes written (transitively) by "
     "Engine.process is computed over the call graph and each is shown to be re-initialised before it is read in the same "
-    "step (fuzzy outputs cleared first; every activate() deactivates the rule before using it), every read of a "
+    "step (fuzzy outputs cleared first; every activate() deactivates the rule before using it - decided by interpreting the seven activate methods "
+    "on model rule blocks), every read of a "
     "variable's value on the process path is classified (input variable / the admissible previous-value capture / "
     "possibly an output variable = step state of an earlier step); restart performs its three effects on all "
     "components; copy is copy.deepcopy with no copy hooks, no class- or module-level mutable state written by instance "
@@ -30,7 +31,7 @@ ASSUMPTIONS = [
     "numpy and copy.deepcopy are deterministic; two runs of pure code on equal inputs give identical floats",
     "lock-previous off for the history-free clause (property precondition)",
 ]
-FLOORS = {"P1": 3, "O-dea": 7, "H5": 6, "H2": 7, "H3": 4, "H4": 6, "H6": 2, "H7": 3, "H9": 1, "H10": 1}
+FLOORS = {"P1": 3, "O-dea": 7, "A-sem": 7, "H5": 6, "H2": 7, "H3": 4, "H4": 6, "H6": 2, "H7": 3, "H9": 1, "H10": 1}
 
 EXPECTED_STEP_STATE = {
     "activation_degree": "Rule: reset by deactivate() at the start of every iteration of every activate()",
@@ -50,7 +51,8 @@ def run(check: Check) -> None:
     wiring.p1_process_phases(check)
     for cls in ["General", "First", "Last", "Highest", "Lowest", "Proportional", "Threshold"]:
         # O-dea of C08, by interpretation: each rule's activation state is reset before it is used in this step
-        activation_semantics(check, cls, ("deactivate-first",))
+        # and an activation object carries nothing from one activation to the next (A-sem history-free)
+        activation_semantics(check, cls, ("deactivate-first", "history-free"))
     step_state(check)
     restart(check)
     from . import c12
